@@ -28,7 +28,7 @@ class Contract(object):
                  raises=None, must_raise=(), loops=None, locals=None, serves=(), ghost=None,
                  implicit='check', trusted=False, inline=False, harness=None, note='',
                  cases=None, on_raise=None, pure=False, lemma=False, body=None,
-                 interface_of=None, exc_ensures=None, checks=None, variant='', nullable=(), fresh_result=False, counts=()):
+                 interface_of=None, exc_ensures=None, checks=None, variant='', nullable=(), fresh_result=False, counts=(), allocates=()):
         self.target = target
         self.params = OrderedDict(params)
         self.returns = returns
@@ -63,6 +63,10 @@ class Contract(object):
         # counts: [(parameter name, ghost name)]: the integer ghost of that object counts the entries into this function (definitional:
         # incremented when the body is entered; the contract states `== old + 1` and lists the ghost in `modifies`)
         self.counts = list(counts)
+        # allocates: location specs, resolved in the POST state of a call, of objects the callee allocates and initialises (fields of a
+        # fresh object reachable through a modified field); at a call site they are havocked after the `modifies` havoc so that the
+        # `ensures` can describe them.  Writes to fresh objects need no permission, so the callee's own frame check ignores this list.
+        self.allocates = list(allocates)
 
     @property
     def name(self):
